@@ -163,7 +163,9 @@ def xml_form(t: int, k: int, n0: int) -> bool:
 U1 = UUID("01234567-89ab-cdef-0123-456789abcdef")
 DATES = [datetime.datetime(1970, 1, 1, tzinfo=datetime.timezone.utc),
          datetime.datetime(2024, 2, 29, 23, 59, 59, tzinfo=datetime.timezone.utc),
-         datetime.datetime(2001, 9, 9, 1, 46, 40, 500000, tzinfo=datetime.timezone.utc)]
+         datetime.datetime(2001, 9, 9, 1, 46, 40, 500000, tzinfo=datetime.timezone.utc),
+         # an aware datetime with a non-zero offset is the same instant as its UTC rendering
+         datetime.datetime(2024, 2, 29, 12, 34, 56, tzinfo=datetime.timezone(datetime.timedelta(hours=5, minutes=30)))]
 REALS = [0.0, -0.0, 1.5, -1.25e-3, 1.7976931348623157e308]
 NLEAF = 11
 PLAIN_DATES = [datetime.date(2024, 2, 29), datetime.date(1970, 1, 1), datetime.date(2001, 7, 4)]
@@ -229,7 +231,7 @@ BINS = [b"", b"\x00", b"\xff\x01"]
 @harness(pre=["0 <= shape <= 3", "0 <= k0 < NLEAF", "0 <= k1 < NLEAF", "i0 in (-2**31, -1, 0, 1, 2**31 - 1)", "i1 == 7",
               "s0 == 0", "b0 == 0", "0 <= sel <= 4"], post="_", timeout=400,
          note="binary LLSD: trees {leaf, [l0, l1], {a: l0, b: [l1]}, [[l0], {k: l1}]} over 11 leaf kinds (S32 boundary values, bool; "
-              "catalogue strs incl. non-ASCII/newline/NUL, binaries, reals incl. -0.0, UUID, 3 aware datetimes, 3 plain dates, URIs, undef, Vector3), map keys ASCII / non-ASCII / empty / NUL-bearing; process time zone Los Angeles / UTC / Berlin: "
+              "catalogue strs incl. non-ASCII/newline/NUL, binaries, reals incl. -0.0, UUID, 4 aware datetimes (one with a +05:30 offset), 3 plain dates, URIs, undef, Vector3), map keys ASCII / non-ASCII / empty / NUL-bearing; process time zone Los Angeles / UTC / Berlin: "
               "parse(format(v)) has the same value and the same LLSD type at every node, with and without header, through the "
               "library parser and the buffered parser used inside serialization specs", covers=COVERS_BIN)
 def binary_roundtrip(shape: int, k0: int, k1: int, i0: int, i1: int, s0: int, b0: int, sel: int, header: bool) -> bool:
